@@ -2,10 +2,12 @@ package mempoolrig
 
 import (
 	"math/big"
+	"runtime"
 	"sync"
 	"testing/synctest"
 
 	"github.com/lianxiangcloud/linkchain/libs/common"
+	"github.com/lianxiangcloud/linkchain/libs/log"
 	mempl "github.com/lianxiangcloud/linkchain/mempool"
 	"github.com/lianxiangcloud/linkchain/types"
 
@@ -28,12 +30,18 @@ func (p *ParkApp) GetNonce(a common.Address) uint64     { return p.inner.GetNonc
 func (p *ParkApp) GetBalance(a common.Address) *big.Int { return p.inner.GetBalance(a) }
 
 func (p *ParkApp) CheckTx(tx types.Tx, basic bool) error {
-	if !basic {
-		return p.inner.CheckTx(tx, basic)
-	}
 	p.mu.Lock()
 	s := p.subs[tx]
 	p.mu.Unlock()
+	if !basic {
+		if s != nil {
+			// the client holds the pool lock and is about to be state-checked
+			s.mu.Lock()
+			s.reachedState = true
+			s.mu.Unlock()
+		}
+		return p.inner.CheckTx(tx, basic)
+	}
 	if s == nil {
 		return p.inner.CheckTx(tx, basic)
 	}
@@ -74,10 +82,19 @@ type Submission struct {
 	// of the submission has passed.
 	OnBasicOK func()
 
-	mu      sync.Mutex
-	state   int
-	err     error
-	release chan struct{}
+	mu           sync.Mutex
+	state        int
+	err          error
+	reachedState bool
+	release      chan struct{}
+}
+
+// ReachedState reports whether the client got into the locked section of
+// AddTx (its state check was called).
+func (s *Submission) ReachedState() bool {
+	s.mu.Lock()
+	defer s.mu.Unlock()
+	return s.reachedState
 }
 
 func (s *Submission) setState(st int) {
@@ -112,6 +129,7 @@ func (s *Submission) Done() bool { return s.State() == SubDone }
 func (w *World) installPark() {
 	w.Park = &ParkApp{inner: w.Chain.App, subs: map[types.Tx]*Submission{}}
 	w.Chain.Mempool.SetApp(w.Park)
+	w.Chain.App.SetLogger(&parkLogger{Logger: log.NewNopLogger(), w: w})
 }
 
 // Start launches a client goroutine that submits tx (a private copy of it) to
@@ -138,7 +156,7 @@ func (w *World) StartHook(id int, tx types.Tx, parkBefore, parkAfter bool, onBas
 		s.state = SubDone
 		s.mu.Unlock()
 	}()
-	synctest.Wait()
+	w.settle(s)
 	return s
 }
 
@@ -147,8 +165,27 @@ func (w *World) Release(s *Submission) {
 	if !s.Parked() {
 		return
 	}
+	s.setState(SubRunning)
 	s.release <- struct{}{}
-	synctest.Wait()
+	w.settle(s)
+}
+
+// settle waits until the client has taken its step: normally quiescence of the
+// bubble; while the committing goroutine is parked (NoWait) a client may be
+// blocked on a mutex the committer holds, which is not a durable block, so
+// the driver only yields until the client is done, parked again, inside the
+// locked section, or evidently stuck behind a lock.
+func (w *World) settle(s *Submission) {
+	if !w.NoWait {
+		synctest.Wait()
+		return
+	}
+	for i := 0; i < w.SpinBound; i++ {
+		if s.Done() || s.Parked() || s.ReachedState() {
+			return
+		}
+		runtime.Gosched()
+	}
 }
 
 // Finish releases s until AddTx has returned.
